@@ -168,7 +168,9 @@ def check_control(chk, MX, sd, acs, frames, name, cases, descr):
         res = []
         for sgn in (+1, -1):
             c2 = dict(cs)
-            c2[cname] = cs.get(cname, 0.0) + sgn * dth
+            cur = cs.get(cname, 0.0)
+            # (a deflection given as a span-wise table is shifted as a whole: the control input changes by the step at every section)
+            c2[cname] = [[r_[0], r_[1] + sgn * dth] for r_ in cur] if isinstance(cur, list) else cur + sgn * dth
             res.append(fresh_totals(MX, sd, with_state(acs, name, cs=c2), frames)[name]["total"])
         for k in keys:
             exp = (res[0][k] - res[1][k]) / (2 * math.radians(dth))
@@ -272,6 +274,12 @@ def run(chk):
         sd, acs, frames = gen_case(chk, MX, force_multi=force_multi, force_rho=force_rho, force_rate_frame=force_rate_frame,
                                    all_frames=(kind in ("damping", "stability") and rnd < 2))
         name = rng.choice([a[0] for a in acs])
+        if kind == "control" and rnd == 1:
+            # (enumerated) a control set as a span-wise distribution of deflections (documented: float or array)
+            cs_ = dict([a_ for a_ in acs if a_[0] == name][0][3])
+            cs_["elevator"] = [[0.0, cs_["elevator"]], [1.0, cs_["elevator"] + 2.0]]
+            acs = with_state(acs, name, cs=cs_)
+            chk.count("control=table")
         try:
             if kind == "stability":
                 sig, det = check_stability(chk, MX, sd, acs, frames, name, cases, descr)
